@@ -98,6 +98,9 @@ func main() {
 		}
 		fmt.Fprintf(out, "{\"start\":%d}\n", rf.Idx)
 		out.Flush()
+		if conc.SaturateFor(rf.Idx - rf.Prefix) {
+			conc.Saturate()
+		}
 		for i := rf.Idx - rf.Prefix; i < rf.Idx; i++ {
 			runOne(rf.Prop, *variant, rf.VerifSeed, i, *nSites, nil, false) // process history only
 		}
@@ -105,6 +108,17 @@ func main() {
 		res.JobFrom = rf.Idx - rf.Prefix
 		_ = enc.Encode(res)
 		return
+	}
+	// what the process did before its first simulated run is a dimension
+	// too: every third job starts with a past that fills whatever bounded
+	// memo, ring or table a library keeps
+	saturated := conc.SaturateFor(*from)
+	if saturated {
+		// (attributed to the job's first run if the race detector or the
+		// runtime stops the process in here)
+		fmt.Fprintf(out, "{\"start\":%d}\n", *from)
+		out.Flush()
+		conc.Saturate()
 	}
 	for i := *from; i < *from+*n; i++ {
 		// the marker tells the driver which run was in flight if the race
@@ -116,6 +130,9 @@ func main() {
 			res.Tape = nil
 		}
 		res.JobFrom = *from
+		if saturated {
+			res.Faults["process_with_a_cache_saturating_past"]++
+		}
 		_ = enc.Encode(res)
 		out.Flush()
 		for _, v := range res.Violations {
